@@ -151,13 +151,14 @@ func OpDiv(x Value, y Value) Value {
 }
 
 func OpMod(x Value, y Value) Value {
+	xi := ToInt(x)
 	yi := ToInt(y)
 	if yi == 0 {
 		// otherwise a Go run-time panic (integer divide by zero),
 		// also when folding constants
 		panic("modulus by zero")
 	}
-	return IntVal(ToInt(x) % yi)
+	return IntVal(xi % yi)
 }
 
 func OpLeftShift(x Value, y Value) Value {
